@@ -254,10 +254,44 @@ def scenarios(which):
             if r5 != (("a", 1), ("b", 1), ("a", 1)):
                 return dict(violation=True, cases=cases, what="two live definitions under one name: the calls a, b, a returned %r" % (r5,), witness="a = def k(x): ('a', x); b = def k(x): ('b', x); ca(1); cb(1); then ca(1), cb(1), ca(1)")
 
+            # two live definitions cached under one identifier: EVERY history of calls a(1) / b(1) / "new session" (the in-process table is
+            # dropped and the wrappers are rebuilt, the function objects stay) up to length 6, for def-functions and for lambdas - each call
+            # must return what its own code computes (seeded change C12-code-check-remembered-per-wrapper: a per-wrapper "already checked" flag)
+            import itertools as _it
+            fa = define("def k(x):\n    return ('a', x)\n", "k", "modhist")
+            fb = define("def k(x):\n    return ('b', x)\n", "k", "modhist")
+            lam = define("la = lambda x: ('a', x)\nlb = lambda x: ('b', x)\n", "la", "modlam").__globals__
+            for kind, (ga, gb) in (("def", (fa, fb)), ("lambda", (lam["la"], lam["lb"]))):
+                for n_ops in range(2, 7):
+                    for hist in _it.product("abS", repeat=n_ops):
+                        if hist[0] == "S" or "a" not in hist or "b" not in hist:
+                            continue
+                        fresh_process_state()
+                        hdir = tempfile.mkdtemp(prefix="h", dir=root)
+                        hm = Memory(hdir, verbose=0)
+                        wa, wb = hm.cache(ga), hm.cache(gb)
+                        got = []
+                        for op in hist:
+                            if op == "S":
+                                fresh_process_state()
+                                hm = Memory(hdir, verbose=0)
+                                wa, wb = hm.cache(ga), hm.cache(gb)
+                            else:
+                                got.append((wa if op == "a" else wb)(1))
+                        cases += 1
+                        want = [(op, 1) for op in hist if op != "S"]
+                        shutil.rmtree(hdir, ignore_errors=True)
+                        if got != want:
+                            return dict(violation=True, cases=cases, what="two live %s definitions under one identifier, history %s: calls returned %r, their own code computes %r" % (kind, "".join(hist), got, want),
+                                        witness="a(1) / b(1) / S = new session (table dropped, wrappers rebuilt): %s" % "".join(hist))
+
         # ---------------- C05: crash states, fresh process, with and without expires_after
         if which in ("all", "C05"):
-            for cvc in (None, expires_after(days=1)):
-                base = os.path.join(root, "c3_%s" % (cvc is not None))
+            def documented_callback(metadata):
+                # the example of doc/memory.rst: only results that were expensive to compute are kept
+                return metadata["duration"] >= 0
+            for cvc in (None, expires_after(days=1), documented_callback):
+                base = os.path.join(root, "c3_%s" % (getattr(cvc, "__name__", cvc),))
                 q = define("def q(x):\n    return ('q', x)\n", "q", "modc5")
                 mem = Memory(base, verbose=0)
                 cq = mem.cache(q, cache_validation_callback=cvc)
@@ -288,7 +322,7 @@ def scenarios(which):
                     try:
                         r = c2(1)
                     except Exception as e:
-                        return dict(violation=True, cases=cases, what="crash state %s: the call raised %r" % (label, e), witness=dict(state=label, callback=cvc is not None))
+                        return dict(violation=True, cases=cases, what="crash state %s: the call raised %r" % (label, e), witness=dict(state=label, callback=getattr(cvc, "__qualname__", None)))
                     if r != ("q", 1):
                         return dict(violation=True, cases=cases, what="crash state %s: wrong value %r" % (label, r), witness=label)
             # an output that cannot be pickled: nothing half-written may be published under the final name (no kill involved)
